@@ -96,8 +96,8 @@ Qed.
 Lemma answer_ptr_silent st g itf rg qn :
   none_announced st (g_if g) -> answer_ptr_question st g itf rg qn = ([], []).
 Proof.
-  intros H. unfold answer_ptr_question. apply fold_left_id.
-  intros a ks Hin. rewrite (H ks Hin). reflexivity.
+  intros H. unfold answer_ptr_question. rewrite fold_left_id; [reflexivity|].
+  intros [acc seen] ks Hin. rewrite (H ks Hin). reflexivity.
 Qed.
 
 Lemma flat_map_nil {X Y} (f : X -> list Y) (l : list X) : (forall x, In x l -> f x = []) -> flat_map f l = [].
@@ -117,7 +117,7 @@ Lemma answer_instance_silent st g itf rg qn qt :
   none_announced st (g_if g) -> answer_instance_question st g itf rg qn qt = ([], []).
 Proof.
   intros H. unfold answer_instance_question.
-  destruct (find (fun ks => beq (resolve_name rg (fst ks)) (lower qn)) (d_svcs st)) as [[k s]|] eqn:F; [|reflexivity].
+  destruct (find (fun ks => beq (lower (resolve_name rg (s_full (snd ks)))) (lower qn)) (d_svcs st)) as [[k s]|] eqn:F; [|reflexivity].
   apply find_some in F as [Hin _]. pose proof (H (k, s) Hin) as Hs. simpl in Hs. rewrite Hs. reflexivity.
 Qed.
 
@@ -153,8 +153,8 @@ Lemma unregister_found st k ch now s :
   aget k (d_svcs st) = Some s ->
   unregister st k ch now =
   (mkD (d_intfs st) (d_regs st) (adel k (d_svcs st))
-       (d_retrans st ++ map (resend_of now) (goodbyes_of s (d_intfs st))) (d_mon st) (d_dead st) (d_mif4 st),
-   map send_of (goodbyes_of s (d_intfs st)) ++ [OReply ch true]).
+       (d_retrans st ++ map (resend_of now) (goodbyes_of st s)) (d_mon st) (d_dead st) (d_os st) (d_sel st),
+   map send_of (goodbyes_of st s) ++ [OReply ch true]).
 Proof. intros H. unfold unregister. rewrite H. reflexivity. Qed.
 
 Lemma unregister_not_found st k ch now :
@@ -178,8 +178,8 @@ Proof.
   destruct (aget k (d_svcs st)) as [s|] eqn:G.
   - rewrite (unregister_found _ _ _ _ _ G). simpl. unfold replies_of. rewrite flat_map_app. simpl.
     assert (flat_map (fun o : out => match o with OReply c ok => [(c, ok)] | _ => [] end)
-                     (map send_of (goodbyes_of s (d_intfs st))) = []) as ->; [|reflexivity].
-    induction (goodbyes_of s (d_intfs st)) as [|[[i v] m] t IH]; simpl; auto.
+                     (map send_of (goodbyes_of st s)) = []) as ->; [|reflexivity].
+    induction (goodbyes_of st s) as [|[[i v] m] t IH]; simpl; auto.
   - rewrite (unregister_not_found _ _ _ _ G). reflexivity.
 Qed.
 
@@ -204,50 +204,27 @@ Proof. intros H. unfold register_resend. rewrite H. reflexivity. Qed.
 
 (* ---- the goodbye packet ------------------------------------------------------------------------------------------------ *)
 
-Lemma goodbye_msg_is_spec rg s addrs : goodbye_msg s addrs = spec_goodbye_msg rg false s addrs.
+Lemma goodbye_msg_is_spec rg s addrs : goodbye_msg rg s addrs = spec_goodbye_msg rg true s addrs.
 Proof. reflexivity. Qed.
 
-Lemma goodbye_all_ttl0 s addrs : is_goodbye (goodbye_msg s addrs) = true.
+Lemma goodbye_all_ttl0 rg s addrs : is_goodbye (goodbye_msg rg s addrs) = true.
 Proof.
   unfold is_goodbye. apply andb_true_iff. split; [apply andb_true_iff; split|].
   - reflexivity.
   - unfold goodbye_msg, ptr_rrs. simpl. reflexivity.
   - unfold goodbye_msg. cbn [o_an o_ar]. rewrite app_nil_r.
+    set (full := resolve_name rg (s_full s)). set (host := resolve_name rg (s_host s)).
     assert (F : Forall (fun r => r_ttl r = 0)
-                  (ptr_rrs s 0 (s_full s)
-                   ++ [mkRR (s_full s) TY_SRV class_in true 0 (RSrv 0 0 (s_port s) (s_host s));
-                       mkRR (s_full s) TY_TXT class_in true 0 (RTxt (s_txt s))]
-                   ++ map (fun a => mkRR (s_host s) (addr_type a) class_in true 0 (RAddr a)) addrs)).
+                  (ptr_rrs s 0 full
+                   ++ [mkRR full TY_SRV class_in true 0 (RSrv 0 0 (s_port s) host);
+                       mkRR full TY_TXT class_in true 0 (RTxt (s_txt s))]
+                   ++ map (fun a => mkRR host (addr_type a) class_in true 0 (RAddr a)) addrs)).
     { apply Forall_app. split; [|apply Forall_app; split].
       - unfold ptr_rrs. constructor; [reflexivity|]. destruct (s_sub s); repeat constructor.
       - repeat constructor.
       - apply Forall_forall. intros r Hr. apply in_map_iff in Hr as (a & <- & _). reflexivity. }
     apply forallb_forall. intros r Hr. apply N.eqb_eq. rewrite Forall_forall in F. auto.
 Qed.
-
-(* what goes out on unregister is what the specification with resolved = false, announced_only =
-   false describes: one packet per interface and family with an address of the service in the
-   subnet *)
-Lemma goodbyes_are_spec_code st s :
-  map (fun g : N * bool * omsg => let '(i, v4, m) := g in (i, v4, Mcast, m)) (goodbyes_of s (d_intfs st))
-  = spec_goodbyes st false false s.
-Proof.
-  unfold goodbyes_of, spec_goodbyes. induction (d_intfs st) as [|i t IH]; simpl; [reflexivity|].
-  rewrite map_app, IH. f_equal. unfold goodbye_on.
-  destruct (addrs_on_intf s i true) as [|a4 l4]; destruct (addrs_on_intf s i false) as [|a6 l6]; reflexivity.
-Qed.
-
-(* no renames and announced wherever it has addresses: the code's goodbye is the one the property asks for *)
-Definition no_renames (st : dstate) (s : svc) : Prop :=
-  forall i, resolve_name (get_reg st i) (s_full s) = s_full s /\ resolve_name (get_reg st i) (s_host s) = s_host s.
-Definition announced_where_addressed (st : dstate) (s : svc) : Prop :=
-  forall i, In i (d_intfs st) ->
-    (addrs_on_intf s i true <> [] \/ addrs_on_intf s i false <> []) -> announced_on (if_index i) s = true.
-
-Lemma spec_goodbye_msg_no_renames rg s addrs :
-  resolve_name rg (s_full s) = s_full s -> resolve_name rg (s_host s) = s_host s ->
-  spec_goodbye_msg rg true s addrs = spec_goodbye_msg rg false s addrs.
-Proof. intros H1 H2. unfold spec_goodbye_msg. rewrite H1, H2. reflexivity. Qed.
 
 Lemma flat_map_ext_In {X Y} (f g : X -> list Y) (l : list X) :
   (forall x, In x l -> f x = g x) -> flat_map f l = flat_map g l.
@@ -256,20 +233,30 @@ Proof.
   rewrite H by (left; reflexivity). f_equal. apply IH. intros y Hy. apply H. right. assumption.
 Qed.
 
-Lemma goodbyes_match_property st s :
-  no_renames st s -> announced_where_addressed st s ->
-  spec_goodbyes st true true s = spec_goodbyes st false false s.
+(* What goes out on unregister IS the goodbye the property asks for: per interface where the
+   service is announced and per family with an address of the service in the subnet, one packet
+   under the names most recently announced there. *)
+Lemma goodbyes_are_spec st s :
+  map (fun g : N * bool * omsg => let '(i, v4, m) := g in (i, v4, Mcast, m)) (goodbyes_of st s)
+  = spec_goodbyes st true true s.
 Proof.
-  intros Hn Ha. unfold spec_goodbyes. apply flat_map_ext_In. intros i Hi.
-  destruct (Hn (if_index i)) as [N1 N2].
-  destruct (announced_on (if_index i) s) eqn:A; cbn [andb negb].
-  - apply flat_map_ext_In. intros v4 _. destruct (addrs_on_intf s i v4); [reflexivity|].
-    rewrite (spec_goodbye_msg_no_renames _ _ _ N1 N2). reflexivity.
-  - destruct (addrs_on_intf s i true) eqn:E4; destruct (addrs_on_intf s i false) eqn:E6.
-    + cbn [flat_map]. rewrite E4, E6. reflexivity.
-    + exfalso. assert (announced_on (if_index i) s = true) as X by (apply Ha; [assumption|right; rewrite E6; discriminate]). congruence.
-    + exfalso. assert (announced_on (if_index i) s = true) as X by (apply Ha; [assumption|left; rewrite E4; discriminate]). congruence.
-    + exfalso. assert (announced_on (if_index i) s = true) as X by (apply Ha; [assumption|left; rewrite E4; discriminate]). congruence.
+  unfold goodbyes_of, spec_goodbyes. induction (d_intfs st) as [|i t IH]; simpl; [reflexivity|].
+  rewrite map_app, IH. f_equal. unfold goodbye_on.
+  destruct (announced_on (if_index i) s); simpl; [|reflexivity].
+  destruct (addrs_on_intf s i true) as [|a4 l4]; destruct (addrs_on_intf s i false) as [|a6 l6]; reflexivity.
+Qed.
+
+(* a goodbye leaves only through interfaces on which the service is in the announced state *)
+Lemma goodbye_only_where_announced st s i v4 m :
+  In (i, v4, m) (goodbyes_of st s) -> announced_on i s = true /\ exists itf, In itf (d_intfs st) /\ if_index itf = i.
+Proof.
+  unfold goodbyes_of. intros H. apply in_flat_map in H as (itf & Hin & H).
+  destruct (announced_on (if_index itf) s) eqn:A; [|contradiction].
+  assert (i = if_index itf).
+  { apply in_app_or in H as [H|H];
+      [destruct (goodbye_on st s itf true)|destruct (goodbye_on st s itf false)]; simpl in H; try contradiction;
+      destruct H as [H|[]]; inversion H; reflexivity. }
+  subst. eauto.
 Qed.
 
 (* the repeat: the identical message, 120 ms later, once *)
@@ -277,15 +264,16 @@ Lemma unregister_schedules_repeat st k ch now s :
   aget k (d_svcs st) = Some s ->
   d_retrans (fst (unregister st k ch now))
   = d_retrans st ++ map (fun g : N * bool * omsg => let '(i, v4, m) := g in (now + 120, UnregisterResend m i v4))
-                        (goodbyes_of s (d_intfs st)).
+                        (goodbyes_of st s).
 Proof.
   intros G. rewrite (unregister_found _ _ _ _ _ G). simpl. f_equal.
   apply map_ext. intros [[i v4] m]. unfold resend_of. destruct goodbye_repeat_pinned as [-> ->].
   destruct v4; reflexivity.
 Qed.
 
+(* the repeat is the saved packet, unchanged, on the interface and family it was first sent on *)
 Lemma unregister_resend_same_packet st m i v4 :
-  unregister_resend st m i v4 = [] \/ unregister_resend st m i v4 = [OResend i v4 m].
+  unregister_resend st m i v4 = [] \/ unregister_resend st m i v4 = [OSend i v4 Mcast m].
 Proof.
   unfold unregister_resend. destruct (find_intf st i); [|auto]. destruct (intf_has_family i0 v4); auto.
 Qed.
@@ -294,5 +282,45 @@ Qed.
 Lemma cleanup_spec st :
   let (st', os) := cleanup st in
   d_svcs st' = [] /\ d_retrans st' = [] /\ d_dead st' = true /\
-  os = flat_map (fun ks => map send_of (goodbyes_of (snd ks) (d_intfs st))) (d_svcs st) ++ [OExit].
+  os = flat_map (fun ks => map send_of (goodbyes_of st (snd ks))) (d_svcs st) ++ [OExit].
 Proof. unfold cleanup. auto. Qed.
+
+(* ---- direct answers use the names the service currently holds ------------------------------------------------------------- *)
+
+(* a question for an instance name is answered only by a service whose CURRENT full name (after
+   any rename) equals the question name, letter case aside *)
+Lemma instance_answer_current_name st g itf rg qn qt :
+  answer_instance_question st g itf rg qn qt <> ([], []) ->
+  exists ks, In ks (d_svcs st) /\ lower (resolve_name rg (s_full (snd ks))) = lower qn.
+Proof.
+  unfold answer_instance_question.
+  destruct (find (fun ks => beq (lower (resolve_name rg (s_full (snd ks)))) (lower qn)) (d_svcs st)) as [ks|] eqn:F;
+    [|congruence].
+  intros _. apply find_some in F as [Hin E]. apply beq_eq in E. eauto.
+Qed.
+
+(* the SRV target and the owner of every additional address record are the host name the service
+   currently holds *)
+Lemma instance_answer_current_host st g itf rg qn qt an ar :
+  answer_instance_question st g itf rg qn qt = (an, ar) ->
+  exists host, (forall r, In r ar -> r_name r = host) /\
+               (forall r p w o h, In r an -> r_data r = RSrv p w o h -> h = host) /\
+               (an = [] /\ ar = [] \/ exists ks, In ks (d_svcs st) /\ host = resolve_name rg (s_host (snd ks))).
+Proof.
+  unfold answer_instance_question.
+  destruct (find (fun ks => beq (lower (resolve_name rg (s_full (snd ks)))) (lower qn)) (d_svcs st)) as [[k s]|] eqn:F.
+  2:{ intros H; inversion H. exists []. repeat split; try (intros; contradiction). left. auto. }
+  apply find_some in F as [Hin _].
+  destruct (negb (announced_on (g_if g) s)).
+  { intros H; inversion H. exists []. repeat split; try (intros; contradiction). left. auto. }
+  destruct (addrs_on_intf s itf (g_v4 g)) as [|a0 al].
+  { intros H; inversion H. exists []. repeat split; try (intros; contradiction). left. auto. }
+  intros H; inversion H; subst; clear H. exists (resolve_name rg (s_host s)). split; [|split].
+  - intros r Hr. destruct ((qt =? TY_SRV) && _); [|contradiction].
+    destruct Hr as [<-|Hr]; [reflexivity|]. apply in_map_iff in Hr as (a & <- & _). reflexivity.
+  - intros r p w o h Hr Hd. apply in_app_or in Hr as [Hr|Hr].
+    + destruct (_ && negb _); [|contradiction]. destruct Hr as [<-|[]]. simpl in Hd. inversion Hd. reflexivity.
+    + destruct ((qt =? TY_TXT) || _); [|contradiction]. unfold add_all in Hr.
+      apply in_map_iff in Hr as (x & <- & Hx). apply filter_In in Hx as [[<-|[]] _]. simpl in Hd. discriminate.
+  - right. exists (k, s). auto.
+Qed.
